@@ -236,6 +236,13 @@ theorem C16_lossless_update_keeps_foreign_items (spec : List (FieldSpec V)) (x :
         show foreign ks (Deb.Lossy.pset (items p) f.key (f.ser v)) = _
         rw [pset_eq_set, foreign_set _ _ _ _ hf]
 
+/-- `Paragraph::keys` after `update_paragraph`: the names of the lossy update of the old items, in
+    that order (an owned field that was there keeps its place, a new one goes to the end) -/
+theorem C16_lossless_update_keys (spec : List (FieldSpec V)) (x : List (Option V)) (p : DNode) :
+    Deb.keys (updateParagraph losslessBackend spec x p)
+      = lossyBackend.keys (updateParagraph lossyBackend spec x (items p)) := by
+  rw [keys_eq_items, (C16_lossless_simulates_lossy spec x).2.2 p]; rfl
+
 /-! ## Part D — inside a document; re-read -/
 
 open Deb822Verif.Spec in
@@ -377,5 +384,110 @@ theorem C16_lossless_roundtrip_reread (spec : List (FieldSpec V)) (x : List (Opt
     · simp only [paragraphFromStr, h4, hps]
     · rw [(C16_lossless_simulates_lossy spec x).1 t, h5.1]
       exact C16_lossy_roundtrip spec x hn hw hcr
+
+/-! ### why the re-read theorems carry `ValidPairs` while the laws do not
+
+  On the live tree `get(set(p, k, v), k) = v` for every `v`; once printed and parsed again, a value
+  or a name outside the C04 domain comes back as something else. -/
+
+/-- `Paragraph::from_str(p.to_string())`, then `get` -/
+def rereadGet (p : DNode) (k : Str) : Option Str :=
+  match paragraphFromStr p.text with
+  | .ok t => Deb.get t k
+  | .error _ => none
+
+open Deb822Verif.Spec in
+/-- a continuation line that starts with a blank (`"a\n b"`, not a `ValidValue`): the live tree
+    reads it back unchanged (the law), the re-read paragraph shows `"a\nb"`; a continuation line
+    starting with `#` is lost altogether -/
+theorem C16_lossless_reread_needs_valid_value :
+    (¬ ValidValue "a\n b".toList
+      ∧ losslessBackend.get (losslessBackend.set (.node .PARAGRAPH []) (c!"K") "a\n b".toList) (c!"K") = some "a\n b".toList
+      ∧ rereadGet (losslessBackend.set (.node .PARAGRAPH []) (c!"K") "a\n b".toList) (c!"K") = some "a\nb".toList)
+    ∧ (¬ ValidValue "a\n#b".toList
+      ∧ losslessBackend.get (losslessBackend.ofList [(c!"K", "a\n#b".toList)]) (c!"K") = some "a\n#b".toList
+      ∧ rereadGet (losslessBackend.ofList [(c!"K", "a\n#b".toList)]) (c!"K") = some (c!"a")) := by
+  refine ⟨⟨by decide, C16_lossless_lawful.get_set _ _ _, by decide +kernel⟩,
+    ⟨by decide, ?_, by decide +kernel⟩⟩
+  rw [C16_lossless_lawful.get_ofList]; rfl
+
+open Deb822Verif.Spec in
+/-- a name with a colon (`"K:x"`, not a `ValidKey`): the live tree has the field, the re-read
+    paragraph has a field `K` with value `"x: a"` instead -/
+theorem C16_lossless_reread_needs_valid_key :
+    ¬ ValidKey (c!"K:x")
+    ∧ losslessBackend.get (losslessBackend.ofList [(c!"K:x", c!"a")]) (c!"K:x") = some (c!"a")
+    ∧ rereadGet (losslessBackend.ofList [(c!"K:x", c!"a")]) (c!"K:x") = none
+    ∧ rereadGet (losslessBackend.ofList [(c!"K:x", c!"a")]) (c!"K") = some (c!"x: a") := by
+  refine ⟨by decide, ?_, by decide +kernel, by decide +kernel⟩
+  rw [C16_lossless_lawful.get_ofList]; rfl
+
+/-! ## non-vacuity
+
+  The prior paragraph is `C04.exPara.node`: `Source: foo⏎ :x⏎# c⏎A:⏎A:⇥b: #c` — a two-line value, a
+  comment line, a duplicate name, an empty value, no final newline. -/
+
+/-- a struct with a mandatory and two optional fields (identity codecs) -/
+def exSpec : List (FieldSpec Str) :=
+  [⟨c!"Source", false, id, .ok⟩, ⟨c!"A", true, id, .ok⟩, ⟨c!"Description", true, id, .ok⟩]
+/-- a value: `A` absent, `Description` with two lines -/
+def exVal : List (Option Str) := [some (c!"bar"), none, some "l1\nl2".toList]
+/-- a struct that does not own `A` -/
+def exSpec2 : List (FieldSpec Str) := [⟨c!"Source", false, id, .ok⟩, ⟨c!"Description", true, id, .ok⟩]
+def exVal2 : List (Option Str) := [some (c!"bar"), some "l1\nl2".toList]
+
+example : (specKeys exSpec).Nodup ∧ (specKeys exSpec2).Nodup := by decide
+example : WellFormed exSpec exVal ∧ CodecsRoundTrip exSpec exVal := by
+  simp [WellFormed, CodecsRoundTrip, exSpec, exVal]
+example : WellFormed exSpec2 exVal2 ∧ CodecsRoundTrip exSpec2 exVal2 := by
+  simp [WellFormed, CodecsRoundTrip, exSpec2, exVal2]
+example : exVal.length = exSpec.length := rfl
+example : Spec.ValidPairs (toFields exSpec exVal) ∧ toFields exSpec exVal ≠ [] := by decide
+example : toFields exSpec exVal = [(c!"Source", c!"bar"), (c!"Description", "l1\nl2".toList)] := by decide
+
+/-- the prior paragraph, as `items` sees it -/
+example : items C04.exPara.node
+    = [(c!"Source", "foo\n:x".toList), (c!"A", []), (c!"A", "b: #c".toList)] := by decide +kernel
+
+/-- the update, computed: `Source` replaced in place (both of its lines), both `A` removed, the
+    comment kept, `Description` appended over two lines -/
+example : (updateParagraph losslessBackend exSpec exVal C04.exPara.node).text
+    = "Source: bar\n# c\nDescription: l1\n l2\n".toList := by decide +kernel
+example : fromParagraph losslessBackend exSpec (updateParagraph losslessBackend exSpec exVal C04.exPara.node)
+    = .ok exVal :=
+  C16_lossless_update_reads_back exSpec exVal _ (by decide)
+    (by simp [WellFormed, exSpec, exVal]) (by simp [CodecsRoundTrip, exSpec, exVal])
+
+/-- frame: `A` is not a key of `exSpec2`; both `A` fields stay, in order, the unterminated last line
+    gets its terminator before `Description` is appended -/
+example : c!"A" ∉ specKeys exSpec2 := by decide
+example : items (updateParagraph losslessBackend exSpec2 exVal2 C04.exPara.node)
+    = [(c!"Source", c!"bar"), (c!"A", []), (c!"A", "b: #c".toList), (c!"Description", "l1\nl2".toList)] := by
+  rw [(C16_lossless_simulates_lossy _ _).2.2]; decide +kernel
+example : foreign (specKeys exSpec2) (items C04.exPara.node) = [(c!"A", []), (c!"A", "b: #c".toList)] := by
+  decide +kernel
+
+/-- `to_paragraph`, computed -/
+example : (toParagraph losslessBackend exSpec exVal).text = "Source: bar\nDescription: l1\n l2\n".toList := by
+  decide +kernel
+example : Deb.keys (toParagraph losslessBackend exSpec exVal) = [c!"Source", c!"Description"] :=
+  C16_lossless_order exSpec exVal
+
+/-- the generated table: there are rows whose every field has a registered codec (hypothesis
+    `specOfRow s = some spec` of `C16_lossless_structs_roundtrip`, as in `Props/C16.lean`) -/
+example : ∃ s ∈ Gen.Structs.all, (specOfRow s).isSome = true := by decide +kernel
+
+/-- `SameReads` is inhabited by every lossless paragraph with the lossy paragraph of its items -/
+example : SameReads losslessBackend lossyBackend C04.exPara.node
+    [(c!"Source", "foo\n:x".toList), (c!"A", []), (c!"A", "b: #c".toList)] := by
+  have h : items C04.exPara.node
+      = [(c!"Source", "foo\n:x".toList), (c!"A", []), (c!"A", "b: #c".toList)] := by decide +kernel
+  rw [← h]; exact C16_lossless_sameReads_items _
+
+/-- inside a document: the example document of C03/C04 (a comment line and a blank line in front of
+    paragraph 0, which sits at child slot 2; handle 0 is live) -/
+example : C03.exDoc.WF ∧ C04.exEditDoc.kids = C03.exDoc.tree.children
+    ∧ ∃ cs, C04.exEditDoc.handles[0]? = some (some 2) ∧ C04.exEditDoc.kids[2]? = some (.node .PARAGRAPH cs) :=
+  ⟨by decide, rfl, _, rfl, rfl⟩
 
 end Deb822Verif.Props.C16
